@@ -1,0 +1,22 @@
+//go:build verif
+
+// Contracts for package patch, checked by /verif/gvc (comment-only file).
+
+package patch
+
+//@ func (f *File) Apply(filename, src) (out, err)
+//@   requires f.prog != nil
+//@   requires forall j int {f.prog.Changes[j]} :: 0 <= j && j < len(f.prog.Changes) ==> f.prog.Changes[j] != nil
+//@   assigns group(ast), matchCount, replFail
+//@   ensures [C06] no-match-returns-input: matchCount == old(matchCount) && replFail == old(replFail) ==> (err == nil ==> out == src)
+//@   ensures [C07] output-parses: err == nil && out != src ==> Parses(string(out))
+//@   ensures [C12,C14] same-pipeline-as-cli: err == nil && out != src ==> exists n int :: n != 0 && string(out) == impProc(filename, fmtNode(n))
+//@   ensures [C09,C16] failed-replace-reported: replFail > old(replFail) ==> (err != nil && out == nil)
+//@   loop 0
+//@     invariant matchCount >= old(matchCount) && replFail >= old(replFail)
+//@     invariant matchCount == old(matchCount) ==> fout == nil
+//@     invariant replFail == old(replFail) ==> retErr == nil
+//@     invariant replFail > old(replFail) ==> retErr != nil
+
+//@ func cleanupFilePos(tfile, cl, comments)
+//@   assigns group(ast)
